@@ -363,12 +363,15 @@ func cmdCheck(args []string) {
 		if i := strings.Index(n, "#"); i >= 0 {
 			fnName = n[:i]
 		}
+		if cls == "det" {
+			continue // a map-range loop that no longer exists needs no determinism argument
+		}
 		if !seenFn[fnName] {
 			g := &groupResult{Name: n, Class: cls, Func: fnName, Status: "unknown"}
 			report(g, "the function under contract no longer exists (renamed or removed); its obligations cannot be discharged")
 			continue
 		}
-		if cls != "panic" && cls != "pre" {
+		if cls != "panic" && cls != "pre" && cls != "det" {
 			g := &groupResult{Name: n, Class: cls, Func: fnName, Status: "unknown"}
 			report(g, "a contract obligation present on the unchanged tree is no longer generated (loop / return / anchor it is keyed to has gone)")
 		}
